@@ -1130,6 +1130,107 @@ static void op_dsqopen(void)
 }
 
 /* ---------------------------------------------------------------------------------------------
+ * dsqcut: a database whose .dsqi / .dsqm / .dsqs was cut short BEHIND its header (a file system that filled up, an
+ * interrupted copy). The loader's short-read branch is `ESL_XEXCEPTION(eslEOD, ...)` -> `ERROR:` -> esl_fatal() -> exit(1):
+ * the documented outcome (the comment at the loader's ERROR label) is the death of the whole process, so the run happens
+ * in a forked child. The child reports every chunk as it gets it through a pipe; the parent classifies the end:
+ *   open-<status>                         Open refused the files (cut inside a header)
+ *   cut-ok nseq= chunks= digest=          every Read answered, then eslEOF, Close returned
+ *   cut-fatal who=<loader|unpacker> delivered=<chunks the consumer got before the process ended>
+ *   fault hang / fault signal:<n> / fault exit:<n>    deadlock (watchdog), crash, sanitizer report
+ * exit() called by the library is recognised by an atexit handler registered in the child (it runs before the sanitizer's
+ * own exit-time work and leaves with _exit(77)); a sanitizer abort leaves with its own exit code.
+ * ------------------------------------------------------------------------------------------- */
+#include <sys/wait.h>
+#include <signal.h>
+#include <fcntl.h>
+#include <errno.h>
+static void cut_child_atexit(void) { _exit(77); }
+static void cut_child_alarm(int sig) { (void) sig; _exit(78); }
+
+static void op_dsqcut(void)
+{
+  DBARGS a; int st, i; char path[300], errpath[320]; const char *file = h_arg("file") ? h_arg("file") : "dsqs";
+  long at = (long) h_argi("at", 0); int pert = (int) h_argi("pert", 0); uint64_t seed = (uint64_t) h_argi("seed", 1);
+  int pfd[2]; pid_t pid; int wst = 0; char *out = NULL; size_t olen = 0, ocap = 0; char errtxt[2048]; int64_t en;
+  if (dbargs_parse(&a) != eslOK) { h_out("bad-op"); dbargs_free(&a); return; }
+  if ((st = db_write(&a)) != eslOK) { h_out("write-%s", h_status(st)); db_remove(&a); dbargs_free(&a); return; }
+  { int64_t n; unsigned char *b; FILE *fp;
+    snprintf(path, sizeof(path), "%s.%s", a.base, file); b = slurp(path, &n);
+    if (b) { if (at < n) n = at; fp = fopen(path, "wb"); fwrite(b, 1, n, fp); fclose(fp); free(b); } }
+  snprintf(errpath, sizeof(errpath), "%s.stderr", a.base);
+  fflush(stdout); fflush(stderr);
+  if (pipe(pfd) != 0 || (pid = fork()) < 0) { h_out("bad-op fork"); db_remove(&a); dbargs_free(&a); return; }
+  if (pid == 0) {
+    ESL_ALPHABET *abc = NULL; ESL_DSQDATA *dd = NULL; ESL_DSQDATA_CHUNK *chu; FILE *w; uint64_t h = 0xcbf29ce484222325ull; int nseq = 0, nch = 0;
+    int efd = open(errpath, O_CREAT | O_WRONLY | O_TRUNC, 0644);
+    close(pfd[0]);
+    if (efd >= 0) { dup2(efd, 2); close(efd); }
+    w = fdopen(pfd[1], "w");
+    atexit(cut_child_atexit);
+    signal(SIGALRM, cut_child_alarm); alarm(getenv("C12_WATCHDOG") ? (unsigned) atoi(getenv("C12_WATCHDOG")) : 45);
+    esl_verif_dsqdata_maxseq = (int) h_argi("maxseq", 0); esl_verif_dsqdata_maxpacket = (int) h_argi("maxpacket", 0); esl_verif_dsqdata_unpackers = (int) h_argi("unpackers", 0);
+    g_perturb = pert; g_ptrace = 0; g_dd = NULL; memset(&tctx, 0, sizeof(tctx)); tctx.rng = seed * 2654435761u + 1;
+    st = esl_dsqdata_Open(&abc, a.base, 1, &dd);
+    if (st != eslOK) {
+      char msg[eslERRBUFSIZE + 1] = "-"; char *q;
+      if (dd && dd->errbuf[0]) { strncpy(msg, dd->errbuf, eslERRBUFSIZE); msg[eslERRBUFSIZE] = 0; for (q = msg; *q; q++) if (*q == ' ' || *q == '\n') *q = '_'; }
+      fprintf(w, "O %s %s\n", h_status(st), msg); fflush(w); _exit(0);
+    }
+    while ((st = esl_dsqdata_Read(dd, &chu)) == eslOK) {
+      for (i = 0; i < chu->N; i++) {
+        h = fnv_bytes(h, chu->name[i], strlen(chu->name[i]) + 1); h = fnv_bytes(h, chu->acc[i], strlen(chu->acc[i]) + 1); h = fnv_bytes(h, chu->desc[i], strlen(chu->desc[i]) + 1);
+        h = fnv_u64(h, (uint64_t)(int64_t) chu->taxid[i]); h = fnv_u64(h, (uint64_t) chu->L[i]); h = fnv_bytes(h, chu->dsq[i] + 1, chu->L[i]);
+        nseq++;
+      }
+      fprintf(w, "C %" PRId64 ":%d:%d\n", chu->i0, chu->N, chu->pn); fflush(w); nch++;
+      esl_dsqdata_Recycle(dd, chu);
+    }
+    fprintf(w, "R %s\n", h_status(st)); fflush(w);
+    st = esl_dsqdata_Close(dd);
+    fprintf(w, "E %s %d %" PRIu64 "\n", h_status(st), nseq, h); fflush(w);
+    _exit(0);
+  }
+  close(pfd[1]);
+  { char buf[4096]; ssize_t r;
+    while ((r = read(pfd[0], buf, sizeof(buf))) > 0) {
+      if (olen + (size_t) r + 1 > ocap) { ocap = 2 * (olen + (size_t) r + 1); out = realloc(out, ocap); }
+      memcpy(out + olen, buf, (size_t) r); olen += (size_t) r;
+    }
+    close(pfd[0]);
+    if (! out) out = calloc(1, 1); else out[olen] = 0; }
+  while (waitpid(pid, &wst, 0) < 0 && errno == EINTR) ;
+  { unsigned char *e = slurp(errpath, &en); errtxt[0] = 0; if (e && en > 0) { if (en > (int64_t) sizeof(errtxt) - 1) en = sizeof(errtxt) - 1; memcpy(errtxt, e, (size_t) en); errtxt[en] = 0; } free(e); remove(errpath); }
+  {
+    /* parse the child's report */
+    char *chunks = malloc(olen + 8), *line, *save = NULL; size_t cl = 0; int nch = 0; char openst[64] = "", readst[32] = "", endst[32] = "", openmsg[300] = "-";
+    int nseq = -1; uint64_t dig = 0;
+    chunks[0] = 0;
+    for (line = strtok_r(out, "\n", &save); line; line = strtok_r(NULL, "\n", &save)) {
+      if (line[0] == 'C') { cl += (size_t) sprintf(chunks + cl, "%s%s", nch ? "," : "", line + 2); nch++; }
+      else if (line[0] == 'O') sscanf(line + 2, "%63s %256s", openst, openmsg);
+      else if (line[0] == 'R') sscanf(line + 2, "%31s", readst);
+      else if (line[0] == 'E') sscanf(line + 2, "%31s %d %" SCNu64, endst, &nseq, &dig);
+    }
+    if (WIFSIGNALED(wst))                                   h_out("fault signal:%d", WTERMSIG(wst));
+    else if (WEXITSTATUS(wst) == 78)                        h_out("fault hang delivered=%s", nch ? chunks : "-");
+    else if (WEXITSTATUS(wst) == 77) {
+      const char *who = strstr(errtxt, "dsqdata loader thread failed") ? "loader" : strstr(errtxt, "dsqdata unpacker thread failed") ? "unpacker" : "other";
+      const char *why = strstr(errtxt, "packet loader: expected") ? "packets" : strstr(errtxt, "metadata loader: expected") ? "metadata" : "-";
+      (void) why;
+      h_out("cut-fatal who=%s delivered=%s", who, nch ? chunks : "-");
+    }
+    else if (WEXITSTATUS(wst) != 0)                         h_out("fault exit:%d", WEXITSTATUS(wst));
+    else if (openst[0])                                     h_out("open-%s msg=%s", openst, openmsg);
+    else if (strcmp(readst, "eof") == 0 && strcmp(endst, "ok") == 0) h_out("cut-ok nseq=%d chunks=%s digest=%" PRIu64, nseq, nch ? chunks : "-", dig);
+    else                                                    h_out("cut-odd read=%s close=%s chunks=%s", readst[0] ? readst : "-", endst[0] ? endst : "-", nch ? chunks : "-");
+    free(chunks);
+  }
+  free(out);
+  db_remove(&a); dbargs_free(&a);
+}
+
+/* ---------------------------------------------------------------------------------------------
  * protocol
  * ------------------------------------------------------------------------------------------- */
 #include <signal.h>
@@ -1166,6 +1267,7 @@ static void h_op(void)
     op_dsqopen();
     alarm(0);
   }
+  else if (strcmp(op, "dsqcut") == 0)      op_dsqcut();      /* its forked child carries the watchdog */
   else if (strcmp(op, "wqrun") == 0 || strcmp(op, "dsqrt") == 0 || strcmp(op, "thrun") == 0) {
     /* watchdog: a deadlock becomes a process death ("fault signal:14" for this case). One deadlock per check run is
      * enough evidence: later threaded ops of the same run are answered at once instead of waiting 45 s each. */
